@@ -1,7 +1,10 @@
 import Splipy.Lemmas.SchoenbergWhitney
 import Splipy.Lemmas.TensorEvalObj1
+import Splipy.Lemmas.TensorEvalObj3
 import Splipy.Lemmas.C14SolveEq
 import Splipy.Lemmas.C14Through
+import Splipy.Lemmas.C14SW
+import Splipy.Lemmas.C14Lsq0
 set_option linter.unusedSectionVars false
 
 /-!
@@ -245,6 +248,188 @@ theorem interpolateGrid_ok_greville_surface {bu bv : Basis K}
   unfold interpolateGrid
   simp only [bind, Except.bind, hcore, List.length_cons, List.length_nil]
   rw [hr, this]
+
+/-- **`volume_factory.interpolate` at the default Greville parameters SUCCEEDS** for three clamped
+continuous non-periodic bases, for both input layouts. -/
+theorem interpolateGrid_ok_greville_volume {bu bv bw : Basis K}
+    (hvu : bu.Valid) (hperu : bu.periodic = -1) (hpu : 2 ≤ bu.order)
+    (hc0u : bu.kn 0 = bu.kn (bu.order - 1))
+    (hc1u : bu.kn bu.numFunctions = bu.kn (bu.numFunctions + (bu.order - 1)))
+    (hmultu : ∀ i, 1 ≤ i → i < bu.numFunctions → bu.kn i < bu.kn (i + (bu.order - 1)))
+    (hvv : bv.Valid) (hperv : bv.periodic = -1) (hpv : 2 ≤ bv.order)
+    (hc0v : bv.kn 0 = bv.kn (bv.order - 1))
+    (hc1v : bv.kn bv.numFunctions = bv.kn (bv.numFunctions + (bv.order - 1)))
+    (hmultv : ∀ i, 1 ≤ i → i < bv.numFunctions → bv.kn i < bv.kn (i + (bv.order - 1)))
+    (hvw : bw.Valid) (hperw : bw.periodic = -1) (hpw : 2 ≤ bw.order)
+    (hc0w : bw.kn 0 = bw.kn (bw.order - 1))
+    (hc1w : bw.kn bw.numFunctions = bw.kn (bw.numFunctions + (bw.order - 1)))
+    (hmultw : ∀ i, 1 ≤ i → i < bw.numFunctions → bw.kn i < bw.kn (i + (bw.order - 1)))
+    {tol : K} (htol : 0 < tol)
+    (hgapu : ∀ i j, bu.kn i < bu.kn j → bu.kn i + 2 * ((bu.order - 1 : ℕ) : K) * tol ≤ bu.kn j)
+    (hgapv : ∀ i j, bv.kn i < bv.kn j → bv.kn i + 2 * ((bv.order - 1 : ℕ) : K) * tol ≤ bv.kn j)
+    (hgapw : ∀ i j, bw.kn i < bw.kn j → bw.kn i + 2 * ((bw.order - 1 : ℕ) : K) * tol ≤ bw.kn j)
+    (x : Tensor K) (d : ℕ)
+    (hx : x.shape = [bu.numFunctions * bv.numFunctions * bw.numFunctions, d] ∨
+          x.shape = [bu.numFunctions, bv.numFunctions, bw.numFunctions, d]) :
+    ∃ cp, interpolateGrid [bu, bv, bw] tol none x = .ok cp ∧ interpolateGridCore [bu, bv, bw] tol none x = .ok cp := by
+  obtain ⟨gu, iu, hgu, hgus, hiu, hiuS, hiuR⟩ := invC_greville_ok hvu hperu hpu hc0u hc1u hmultu htol hgapu
+  obtain ⟨gv, iv, hgv, hgvs, hiv, hivS, hivR⟩ := invC_greville_ok hvv hperv hpv hc0v hc1v hmultv htol hgapv
+  obtain ⟨gw, iw, hgw, hgws, hiw, hiwS, hiwR⟩ := invC_greville_ok hvw hperw hpw hc0w hc1w hmultw htol hgapw
+  have hx' : ∃ x', gridInput [bu, bv, bw] x = .ok x' ∧
+      x'.shape = [bu.numFunctions, bv.numFunctions, bw.numFunctions, d] := by
+    unfold gridInput
+    rcases hx with h | h
+    · refine ⟨{ x with shape := [bu.numFunctions, bv.numFunctions, bw.numFunctions, d] }, ?_, rfl⟩
+      have hl : x.shape.length = 2 := by rw [h]; rfl
+      have hd : x.shape.getLastD 1 = d := by rw [h]; rfl
+      simp only [hl, if_true, List.map_cons, List.map_nil, hd, List.cons_append, List.nil_append]
+      unfold Interp.reshape
+      have : Tensor.prod [bu.numFunctions, bv.numFunctions, bw.numFunctions, d] = Tensor.prod x.shape := by
+        rw [h]; simp only [Tensor.prod, List.foldl]; ring
+      rw [if_neg (by rw [this]; simp)]
+    · refine ⟨x, ?_, h⟩
+      have hl : x.shape.length ≠ 2 := by rw [h]; simp
+      simp only [hl, if_false]
+  obtain ⟨x', hx1, hx2⟩ := hx'
+  have t1 := tensordot_ok iw x' 2 bw.numFunctions (by rw [hx2]; simp) (by rw [hx2]; rfl)
+    (fun r hr => hiwR r (by rw [← hiwS]; exact hr))
+  obtain ⟨r1sh, _, _⟩ := tensordot4 iw x' _ hx2 t1
+  have t2 := tensordot_ok iv (moveFront (Tensor.applyAxis iw x' 2) 2) 2 bv.numFunctions (by rw [r1sh]; simp)
+    (by rw [r1sh]; rfl) (fun r hr => hivR r (by rw [← hivS]; exact hr))
+  obtain ⟨r2sh, _, _⟩ := tensordot4 iv _ _ r1sh t2
+  have t3 := tensordot_ok iu (moveFront (Tensor.applyAxis iv (moveFront (Tensor.applyAxis iw x' 2) 2) 2) 2) 2
+    bu.numFunctions (by rw [r2sh]; simp) (by rw [r2sh]; rfl) (fun r hr => hiuR r (by rw [← hiuS]; exact hr))
+  obtain ⟨r3sh, _, _⟩ := tensordot4 iu _ _ r2sh t3
+  have hcore : interpolateGridCore [bu, bv, bw] tol none x
+      = .ok (moveFront (Tensor.applyAxis iu (moveFront (Tensor.applyAxis iv
+          (moveFront (Tensor.applyAxis iw x' 2) 2) 2) 2) 2) 2) := by
+    unfold interpolateGridCore gridParams chain
+    simp only [bind, Except.bind, pure, Except.pure, hx1, List.mapM_cons, List.mapM_nil, hgu, hgv, hgw, Except.map,
+      List.zip_cons_cons, List.zip_nil_right, List.map_cons, List.map_nil, List.reverse_cons, List.reverse_nil,
+      List.nil_append, List.cons_append, hiu, hiv, hiw, List.foldlM, List.length_cons, List.length_nil,
+      Nat.add_one_sub_one, t1, t2, t3]
+  obtain ⟨r, hr, rsh, rsz, rent⟩ := throughConstructor4 _ r3sh
+  have hsz := tensordot4_size iu _ _ r2sh t3
+  have : r = _ := tensor_ext4 _ r r3sh rsh hsz rsz rent
+  refine ⟨_, ?_, hcore⟩
+  unfold interpolateGrid
+  simp only [bind, Except.bind, hcore, List.length_cons, List.length_nil]
+  rw [hr, this]
+
+/-- `NestedPts` is the both-ends-pinned case of `GenNested`. -/
+theorem NestedPts.toGen {τ : ℕ → K} {q n : ℕ} {x : ℕ → K} (h : NestedPts τ q n x) :
+    GenNested τ q n x true true where
+  first := by simpa using h.first
+  last := by simpa using h.last
+  lt_succ := h.lt_succ
+  nest := h.nest
+
+theorem GenNested.congr_c14 {τ : ℕ → K} {q n : ℕ} {x y : ℕ → K} {p0 p1 : Bool} (hn : 1 ≤ n)
+    (hx : GenNested τ q n x p0 p1) (h : ∀ l, l < n → y l = x l) : GenNested τ q n y p0 p1 where
+  first := by rw [h 0 (by omega)]; exact hx.first
+  last := by rw [h (n-1) (by omega)]; exact hx.last
+  lt_succ := fun l hl => by rw [h l (by omega), h (l+1) hl]; exact hx.lt_succ l hl
+  nest := fun l h1 h2 => by rw [h l (by omega)]; exact hx.nest l h1 h2
+
+/-- Generalised nested points lie in the domain; only a pinned last point is the domain end. -/
+theorem gen_nested_in_domain {b : Basis K} (hv : b.Valid) (hper : b.periodic = -1)
+    (hc0 : b.kn 0 = b.kn (b.order - 1))
+    (hc1 : b.kn b.numFunctions = b.kn (b.numFunctions + (b.order - 1)))
+    (xf : ℕ → K) (p0 p1 : Bool)
+    (hx : GenNested b.kn (b.order - 1) b.numFunctions xf p0 p1) (l : ℕ) (hl : l < b.numFunctions) :
+    b.start ≤ xf l ∧ xf l ≤ b.stop ∧ (xf l = b.stop ↔ (p1 = true ∧ l + 1 = b.numFunctions)) := by
+  have hτ : Monotone b.kn := hv.kn_mono
+  have hnf : b.numFunctions = b.nAll := Basis.numFunctions_of_nonperiodic hper
+  have hstart : b.start = b.kn (b.order - 1) := rfl
+  have hstop : b.stop = b.kn b.numFunctions := by rw [hnf]; rfl
+  have hlo0 : b.start ≤ xf 0 := by
+    have := hx.first
+    cases hp : p0
+    · rw [hp] at this; simp only [Bool.false_eq_true, if_false] at this
+      rw [hstart, ← hc0]; exact this.1.le
+    · rw [hp] at this; simp only [if_true] at this
+      rw [hstart, this]
+  have hlo : b.start ≤ xf l := by
+    rcases Nat.eq_zero_or_pos l with h0 | h0
+    · rw [h0]; exact hlo0
+    · have := hx.strict 0 (l-1) (by omega)
+      rw [show 0 + (l - 1) + 1 = l by omega] at this
+      exact le_trans hlo0 this.le
+  have hlast : xf (b.numFunctions - 1) ≤ b.stop ∧ (xf (b.numFunctions - 1) = b.stop ↔ p1 = true) := by
+    have := hx.last
+    cases hp : p1
+    · rw [hp] at this; simp only [Bool.false_eq_true, if_false] at this
+      rw [hstop]
+      exact ⟨this.2.le, ⟨fun h => absurd h (ne_of_lt this.2), fun h => absurd h (by simp)⟩⟩
+    · rw [hp] at this; simp only [if_true] at this
+      rw [hstop, this]; simp
+  by_cases hln : l + 1 = b.numFunctions
+  · have hl' : l = b.numFunctions - 1 := by omega
+    rw [hl']
+    refine ⟨by rw [← hl']; exact hlo, hlast.1, ?_⟩
+    rw [hlast.2]
+    constructor
+    · intro h; exact ⟨h, by omega⟩
+    · intro h; exact h.1
+  · obtain ⟨d, hd⟩ : ∃ d, b.numFunctions - 1 = l + d + 1 := ⟨b.numFunctions - 1 - l - 1, by omega⟩
+    have h3 := hx.strict l d (by omega)
+    rw [← hd] at h3
+    have hlt : xf l < b.stop := lt_of_lt_of_le h3 hlast.1
+    refine ⟨hlo, hlt.le, ?_⟩
+    constructor
+    · intro h; exact absurd h (ne_of_lt hlt)
+    · intro h; exact absurd h.2 hln
+
+/-- **Schoenberg–Whitney for the executable model, ends pinned or open**: the collocation matrix at
+exact generalised-nested parameters has an entrywise left inverse. -/
+theorem colloc_left_inverse_gen {b : Basis K} (hv : b.Valid) (hper : b.periodic = -1)
+    (hp : 2 ≤ b.order) (hc0 : b.kn 0 = b.kn (b.order - 1))
+    (hc1 : b.kn b.numFunctions = b.kn (b.numFunctions + (b.order - 1)))
+    (hmult : ∀ i, 1 ≤ i → i < b.numFunctions → b.kn i < b.kn (i + (b.order - 1)))
+    {tol : K} (htol : 0 < tol) (ts : List K) (hlen : ts.length = b.numFunctions) (p0 p1 : Bool)
+    (hx : GenNested b.kn (b.order - 1) b.numFunctions (fun l => ts.getD l 0) p0 p1)
+    (hex : ∀ l, l < b.numFunctions → b.ExactAt tol (ts.getD l 0)) :
+    ∃ L : ℕ → ℕ → K, ∀ i j, i < b.numFunctions → j < b.numFunctions →
+      ∑ l ∈ range b.numFunctions, L i l * (colloc b tol ts 0).get l j = if i = j then 1 else 0 := by
+  have hτ : Monotone b.kn := hv.kn_mono
+  have hn : b.order - 1 + 1 ≤ b.numFunctions := by
+    have := hv.order_le_nAll
+    have := Basis.numFunctions_of_nonperiodic hper
+    omega
+  apply left_inverse_of_injective_c14
+  intro y hy
+  apply gen_colloc_injective_c14 b.kn hτ (b.order - 1) b.numFunctions (by omega) hn hc0 hc1 hmult
+    (fun l => ts.getD l 0) p0 p1 hx y
+  intro l hl
+  refine (sum_congr rfl (fun j hj => ?_)).trans (hy l hl)
+  obtain ⟨d1, d2, d3⟩ := gen_nested_in_domain hv hper hc0 hc1 _ p0 p1 hx l hl
+  rw [get_colloc b tol ts 0 l j (by omega), evaluate_inside_right hv hper htol (hex l hl) d1 d2 (mem_range.mp hj),
+    mul_comm]
+  congr 1
+  symm
+  unfold effSide genSide
+  simp only [if_true]
+  by_cases h1 : ts.getD l 0 = b.stop
+  · rw [if_pos h1, if_pos (d3.mp h1)]
+  · rw [if_neg h1, if_neg (fun h => h1 (d3.mpr h))]
+
+/-- Interpolation at exact generalised-nested user parameters succeeds. -/
+theorem interpolateCurve_ok_of_gen_nested {b : Basis K} (hv : b.Valid) (hper : b.periodic = -1)
+    (hp : 2 ≤ b.order) (hc0 : b.kn 0 = b.kn (b.order - 1))
+    (hc1 : b.kn b.numFunctions = b.kn (b.numFunctions + (b.order - 1)))
+    (hmult : ∀ i, 1 ≤ i → i < b.numFunctions → b.kn i < b.kn (i + (b.order - 1)))
+    {tol : K} (htol : 0 < tol) (ts : List K) (hlen : ts.length = b.numFunctions) (p0 p1 : Bool)
+    (hx : GenNested b.kn (b.order - 1) b.numFunctions (fun l => ts.getD l 0) p0 p1)
+    (hex : ∀ l, l < b.numFunctions → b.ExactAt tol (ts.getD l 0))
+    (x : Mat K) (m : ℕ) (hxs : x.size = b.numFunctions ∧ ∀ i, i < b.numFunctions → (x.getD i #[]).size = m) :
+    ∃ c, interpolateCurve b tol (some ts) x = .ok c := by
+  obtain ⟨L, hL⟩ := colloc_left_inverse_gen hv hper hp hc0 hc1 hmult htol ts hlen p0 p1 hx hex
+  obtain ⟨c, hc⟩ := solveC_complete (colloc b tol ts 0) x b.numFunctions m (colloc_shape b tol ts 0 hlen) hxs L hL
+  refine ⟨c, ?_⟩
+  unfold interpolateCurve
+  simp only [paramsOrGreville, bind, Except.bind]
+  rw [if_neg (by rw [size_colloc]; omega)]
+  exact hc
 
 end Interp
 end Splipy
